@@ -1,4 +1,6 @@
-"""Registry: property id -> level + harness parts.  Read by check, bin/setup."""
+"""Registry: property id -> level + harness parts + manifest text.
+One file per property in lib/props.d/Cxx.py defining PROP (dict) and TEXT (dict)."""
+import glob, os, importlib.util
 
 def cxx(name, harness, ninja=(), shards=(1, 1), **kw):
     d = dict(name=name, kind="cxx", harness=harness, ninja=list(ninja), shards=dict(quick=shards[0], thorough=shards[1]))
@@ -13,8 +15,13 @@ def py(name, harness, ninja=(), shards=(1, 1), **kw):
 TOOLS = ["votca_tools"]
 CSG = ["votca_tools", "votca_csg"]
 
-PROPS = {
-    "C13": dict(level="model_checking", parts=[
-        cxx("hist", "C13_hist", ninja=TOOLS, shards=(12, 12)),
-    ]),
-}
+PROPS, TEXT = {}, {}
+_here = os.path.dirname(os.path.abspath(__file__))
+for _f in sorted(glob.glob(os.path.join(_here, "props.d", "C*.py"))):
+    _pid = os.path.basename(_f)[:-3]
+    _spec = importlib.util.spec_from_file_location("props_d_" + _pid, _f)
+    _m = importlib.util.module_from_spec(_spec)
+    _m.cxx, _m.py, _m.TOOLS, _m.CSG = cxx, py, TOOLS, CSG
+    _spec.loader.exec_module(_m)
+    PROPS[_pid] = _m.PROP
+    TEXT[_pid] = _m.TEXT
